@@ -30,7 +30,7 @@ from ..run import hyp_run
 
 ID = 'C07'
 LEVEL = 'exploration'
-BUDGET_S = {'quick': 170, 'thorough': 1700}
+BUDGET_S = {'quick': 300, 'thorough': 1700}
 RULE = ('one workbook per case with 1-5 marked hostile strings in generated placements, translated with the safety check on and off; '
         'a case = one (workbook, safety setting); non-trivial = some string contains one of \' " \\ newline or call syntax and sits in a '
         'formula literal, a criterion or a title; distinct = distinct (workbook, setting)')
